@@ -15,6 +15,9 @@ PROFILES = [
     dict(name="modes-errors", opts=OPTS, weights=dict(W, begin=12, commit=10, rollback=6, sp=4, rbsp=6), keys=KEYS, max_tx=4, length=(40, 100)),
     dict(name="observer", opts=OPTS, weights=dict(W, begin=10, get=35, scan=10), keys=KEYS[:4], max_tx=3, length=(40, 100)),
     dict(name="timestamps", opts=["lc=2,ver=1,vlog=1,vth=0"], weights=W, keys=KEYS[:4], max_tx=2, length=(30, 80), ts_mode=True),
+    # several explicit-timestamp versions of one key inside one savepoint, then partial rollbacks
+    dict(name="explicit-ts-savepoints", opts=["lc=2,ver=1,vlog=1,vth=0", "lc=2"], weights=dict(W, write=50, sp=12, rbsp=12, get=30, commit=6),
+         keys=KEYS[:2], max_tx=2, length=(40, 100), ts_mode=True, kind_weights=[3, 1, 1, 1, 12]),
 ]
 
 
